@@ -25,11 +25,19 @@ func geodeticDistAlgo(center [2]float64) (
 			min[0], max[0] = math.Max(min[0], -180), math.Min(max[0], 180)
 			min[1], max[1] = math.Max(min[1], -90), math.Min(max[1], 90)
 		}
-		return earthRadius * pointRectDistGeodeticDeg(
+		dist = earthRadius * pointRectDistGeodeticDeg(
 			center[1], center[0],
 			min[1], min[0],
 			max[1], max[0],
 		)
+		if !item {
+			// A node's distance only orders the traversal. It must stay a
+			// lower bound of the distance of every object inside the node in
+			// floating point too: the bound and the object distances are
+			// different formulas that disagree by up to ~1e-8 relative.
+			dist *= 1 - 1e-7
+		}
+		return dist
 	}
 }
 
